@@ -494,7 +494,7 @@ class PreparedStatementPlanner():
         stmt = self.planner.statement
 
         # is already executed
-        if stmt is None:
+        if stmt is None or stmt.params is None:
             if params is not None:
                 raise PlanningException("Can't execute statement")
             stmt = Statement()
